@@ -16,6 +16,16 @@ class StringV:
     def __repr__(self):
         return f"StringV({self.value})"
 
+    def __eq__(self, other):
+        # the concrete backend evaluates `s == t` on these objects: by value, not by identity
+        return isinstance(other, StringV) and self.value == other.value
+
+    def __ne__(self, other):
+        return not self.__eq__(other)
+
+    def __hash__(self):
+        return hash(self.value)
+
 
 def StrConcat(*args):
     """
